@@ -498,8 +498,12 @@ pub mod proofs {
         poll_once(&mut iter);
         let first = unsafe { I::yielded_sa };
         let nested_in_first = vshim::interrupts_taken();
-        // batch exhausted: back to waiting (sleeps, path cut, unless a delivery arrives)
-        poll_once(&mut iter);
+        // batch exhausted: back to waiting (sleeps, path cut, unless a delivery arrives;
+        // if the one nested delivery has landed and been reported already, the
+        // consumer would legitimately sleep: stop there)
+        if nested_in_first == 0 || unreported() {
+            poll_once(&mut iter);
+        }
         vshim::set_mode_seq();
         if unreported() {
             poll_once(&mut iter);
